@@ -29,7 +29,9 @@ CONSTANTS Callers,     \* caller slots
           Horizon,     \* the clock stops here
           SerialDial,  \* TRUE: as the code (F21); FALSE: callers blocked behind a failing attempt share its failure
           DialModes,   \* what a connection attempt may meet: "accept", "refuse", "blackhole"
-          MayClose     \* the peer may close the connection (or send an unparsable frame, which makes the client close it)
+          MayClose,    \* the peer may close the connection (or send an unparsable frame, which makes the client close it)
+          Transient    \* model-checking economy: caller labels whose next step runs before anybody else moves ({} = every interleaving);
+                       \* used only for labels whose step commutes with every step of the other processes in that configuration
 MinId == -MaxId - 1
 Ids == MinId..MaxId
 GARB == MaxId + 1       \* pseudo id: a well-framed packet that does not decode
@@ -165,7 +167,9 @@ Tick == /\ Timed /\ now < Horizon /\ ~Urgent /\ now' = now + 1
 CallerStep(c) == Start(c) \/ GenCAS(c) \/ GenAdd(c) \/ Pre(c) \/ Sel(c) \/ Reg1(c) \/ Reg2(c) \/ SendOpen(c) \/ DialStart(c)
                  \/ DialDone(c) \/ Timeout(c) \/ Unreg1(c) \/ Unreg2(c) \/ Post(c)
 RecvStep(q) == ClientRecvPkg(q) \/ RecvStart(q) \/ Lookup(q) \/ Deliver(q) \/ GiveUp(q)
-Next == \/ \E c \in Callers : CallerStep(c)
+Hurry == {c \in Callers : pc[c] \in Transient}
+Next == IF Hurry # {} THEN \E c \in Hurry : CallerStep(c) ELSE
+        \/ \E c \in Callers : CallerStep(c)
         \/ \E m \in sendQ : SenderWrite(m)
         \/ \E m \in wire : PeerGet(m)
         \/ \E i \in PeerIds : PeerSend(i)
